@@ -4,7 +4,7 @@
     guards and the StateDB syncs of the bank wrapper. *)
 From Coq Require Import List Bool Arith ZArith String.
 Import ListNotations.
-Require Import Nib.C06.Model Nib.C06.Spec Nib.C06.Paths Nib.C06.Proofs Nib.C06.ProofsPaths Nib.C06.ProofsSpell Nib.C06.Property.
+Require Import Nib.C06.Model Nib.C06.Spec Nib.C06.Paths Nib.C06.Proofs Nib.C06.ProofsPaths Nib.C06.ProofsSpell Nib.C06.ProofsReentry Nib.C06.Property.
 Require Import Nib.Gen.C06Facts.
 
 (** sendToBank / sendToEvm (both births), convertCoinToEvmBornCoin / BornERC20, bankMsgSend: same steps, same
@@ -53,6 +53,17 @@ Proof.
   - rewrite C06_create_denoms_match_model. apply views_with_model.
 Qed.
 Print Assumptions C06_current_tree_guards_what_it_inserts.
+
+(** the context handed to precompiles is marked, and ConvertCoinToEvm / CreateFunToken refuse on a marked context before they
+    touch anything: a message of the EVM module dispatched from inside a running EVM transaction (Wasm precompile ->
+    CosmWasm contract -> Stargate message) is a rejected operation *)
+Theorem C06_reentry_guards_match_model : current_reentry_guards = model_reentry_guards.
+Proof. reflexivity. Qed.
+
+Theorem C06_current_tree_refuses_reentry : forall ops : list op,
+  views_rg current_reentry_guards init ops = views init ops /\ P (views_rg current_reentry_guards init ops).
+Proof. intro ops. apply C06_guarded_reentry_safe; reflexivity. Qed.
+Print Assumptions C06_current_tree_refuses_reentry.
 
 (** NibiruBankKeeper: every wrapped bank method re-syncs ALL the accounts it moves coins between *)
 Theorem C06_bank_wrappers_sync_all_accounts : current_bank_sync = model_bank_sync.
